@@ -174,6 +174,18 @@ func abortHook(kind, detail string) {
 		emit(outRec{T: "note", Property: *flagProp, Seed: curSeed, Class: "harness-limit-" + kind, Detail: detail})
 		os.Exit(2)
 	}
+	if kind == simrt.AbortWatchdog && runRace0 >= 0 && raceLogSize() > runRace0 {
+		// The run did not end in time, and the race detector has been reporting
+		// since it began: a run that drowns in race reports (each one costs
+		// milliseconds) is a run with a race, not trouble of the harness.
+		log := raceLogFrom(runRace0, 1<<18)
+		if sig, both, first := raceSignature(log); both {
+			emit(outRec{T: "fail", Property: *flagProp, Seed: curSeed, Class: "race", Sig: sig, Detail: "(the run was still going after the watchdog's time, with the race detector reporting throughout) " + first, Replay: curScenario,
+				Extra: map[string]interface{}{"trace": traceStrings(simrt.Trace(), 60)}})
+			emit(outRec{T: "summary", Property: *flagProp, Summary: &Summary{Stopped: true, Failures: 1, NextSeed: uint64(curIndex + shardN)}})
+			os.Exit(0)
+		}
+	}
 	if kind == simrt.AbortWatchdog {
 		fmt.Fprintln(os.Stderr, "harness: watchdog:", detail)
 		emit(outRec{T: "note", Property: *flagProp, Seed: curSeed, Class: "harness-watchdog", Detail: detail})
@@ -194,6 +206,10 @@ func abortHook(kind, detail string) {
 }
 
 var curIndex int64
+
+// runRace0 is the size of the race detector's log when the concurrent run in
+// progress began (-1: no such run).
+var runRace0 int64 = -1
 
 func corpusRoots() []string {
 	var out []string
@@ -219,6 +235,18 @@ func raceLogSize() int64 {
 		return 0
 	}
 	return fi.Size()
+}
+
+// raceLogFrom returns at most max bytes of the race log from offset from.
+func raceLogFrom(from int64, max int) string {
+	f, err := os.Open(*flagRaceLog + "." + strconv.Itoa(os.Getpid()))
+	if err != nil {
+		return ""
+	}
+	defer f.Close()
+	buf := make([]byte, max)
+	n, _ := f.ReadAt(buf, from)
+	return string(buf[:n])
 }
 
 func raceLogText() string {
